@@ -22,7 +22,7 @@ ASSUMPTIONS = ["the response constructor's headers= argument is not a 'mutating 
 KEYS = ["x", "X", "y", "a\rb", "a\nb", "a\0b"]
 VALUES = ["ok", "é", "a;b", "", "a\rb", "a\nb", "a\0b", "a\r\nset-cookie: x=1"]
 DEPTH = {"quick": 3, "thorough": 4}
-COOKIE_ALPHA = ["\r", "\n", "\0", ";", ",", "=", '"', "\\", " ", "a", "é", "\x7f", "\x80"]
+COOKIE_ALPHA = ["\r", "\n", "\0", ";", ",", "=", '"', "\\", " ", "a", "é", "\x7f", "\x80", "中"]
 COOKIE_LEN = {"quick": 2, "thorough": 3}
 URL_ALPHA = ["\r", "\n", "\0", " ", "é", "%", "/", "?", "#", ":", "a"]
 BADCH = ("\r", "\n", "\0")
@@ -150,6 +150,7 @@ INITS = [(), (("x", "ok"),)]
 def shards(tier, seed):
     out = [("headers", iface, i) for iface in ("wsgi", "asgi") for i in range(len(INITS))]
     out += [("cookie", i) for i in range(len(COOKIE_ALPHA) + 1)]
+    out += [("hdrstrings", iface) for iface in ("wsgi", "asgi")]
     out += [("redirect", i) for i in range(len(URL_ALPHA))]
     return out
 
@@ -199,6 +200,8 @@ def run_shard(desc, tier):
         r.count("traces", c["transitions"])
         r.count("distinct_nontrivial", len(nontrivial))
         r.sample({"iface": iface, "init": list(init), "history": [["set", "x", "ok"], ["append", "X", "a\r\nset-cookie: x=1"], ["update_kw", "y", "é"]]})
+    elif desc[0] == "hdrstrings":
+        header_strings(r, desc[1], tier)
     elif desc[0] == "cookie":
         n = COOKIE_LEN[tier]
         idx = desc[1]
@@ -210,6 +213,9 @@ def run_shard(desc, tier):
         for name in names[:14]:
             for value in strings[:200]:
                 check_cookie(r, name, value, full=True)
+        for name in names[:40]:
+            for value in strings:
+                check_cookie(r, name, value, full=False, late=True)
         r.sample({"cookie_name": names[-1], "cookie_value": strings[-1]})
     else:
         a0 = URL_ALPHA[desc[1]]
@@ -220,11 +226,57 @@ def run_shard(desc, tier):
     return r
 
 
-def check_cookie(r, name, value, full):
+HDR_ALPHA = ["\r", "\n", "\0", " ", "\t", "a", ":"]
+
+
+def header_strings(r, iface, tier):
+    """Every string up to length 3 (thorough 4) over {CR, LF, NUL, SP, TAB, 'a', ':'} as header value and as header name through
+    every mutation path: one that contains CR, LF or NUL must be rejected with ValueError at the call and must never be emitted."""
+    paths = {
+        "setitem-new": lambda h, k, v: h.__setitem__(k, v),
+        "append-new": lambda h, k, v: h.append(k, v),
+        "append-existing": lambda h, k, v: h.append("x-old" if k == "x-new" else k, v),
+        "update-pairs": lambda h, k, v: h.update([(k, v)]),
+        "update-map": lambda h, k, v: h.update({k: v}),
+        "setdefault": lambda h, k, v: h.setdefault(k, v),
+    }
+    n = 3 if tier == "quick" else 4
+    strings = ["".join(t) for k in range(1, n + 1) for t in itertools.product(HDR_ALPHA, repeat=k)]
+    for s_ in strings:
+        hostile = bad(s_)
+        for pname, fn in paths.items():
+            for as_name in (False, True):
+                if as_name and (pname == "append-existing" or not hostile):
+                    continue
+                resp = fresh(iface, (("x-old", "1"),))
+                r.count("evaluations")
+                if hostile:
+                    r.count("distinct_nontrivial")
+                try:
+                    fn(resp.headers, s_ if as_name else "x-new", "ok" if as_name else s_)
+                    rejected = False
+                except ValueError:
+                    rejected = True
+                w = {"kind": "hdrstring", "iface": iface, "path": pname, "string": s_, "as_name": as_name}
+                if hostile and not rejected:
+                    r.violation(f"headers:hostile-string-accepted:{pname}", w, f"{iface} headers {pname} accepted {'name' if as_name else 'value'} {s_!r} without ValueError")
+                    continue
+                if not hostile and rejected:
+                    r.violation(f"headers:clean-string-rejected:{pname}", w, f"{iface} headers {pname} rejected the clean value {s_!r}")
+                    continue
+                if not rejected:
+                    res = emit(iface, resp)
+                    for pr in line_problems(res):  # CR, LF, NUL only: a TAB is legal in a field value as far as this property goes
+                        r.violation("headers:emitted-line", w, f"{iface} after {pname}({s_!r}): {pr}")
+    r.sample({"iface": iface, "header_string": "a\r\n b", "paths": list(paths)})
+
+
+def check_cookie(r, name, value, full, late=False):
+    wide = any(ord(c) > 0xFF for c in name + value)
     for iface in ("wsgi", "asgi"):
         mod = __import__("baize.wsgi" if iface == "wsgi" else "baize.asgi", fromlist=["Response"])
         resp = mod.Response(204)
-        w = {"kind": "cookie", "iface": iface, "name": name, "value": value, "full": full}
+        w = {"kind": "cookie", "iface": iface, "name": name, "value": value, "full": full, "late": late}
         r.count("evaluations")
         if any(c in name + value for c in "\r\n\0;,="):
             r.count("distinct_nontrivial")
@@ -232,6 +284,12 @@ def check_cookie(r, name, value, full):
             if full:
                 resp.set_cookie(name, value, max_age=5, path="/p", domain="d.example", secure=True, httponly=True, samesite="strict")
                 expect = [" max-age=5", " domain=d.example", " path=/p", " httponly", " secure", " samesite=strict"]
+            elif late:
+                # a signing / rewriting layer changes the public Cookie object after set_cookie()
+                resp.set_cookie("sid", "abc123")
+                resp.cookies[-1].name = name
+                resp.cookies[-1].value = value
+                expect = [" path=/", " samesite=lax"]
             else:
                 resp.set_cookie(name, value)
                 expect = [" path=/", " samesite=lax"]
@@ -239,6 +297,8 @@ def check_cookie(r, name, value, full):
         except Exception as e:  # noqa
             r.violation(f"cookie:exception:{type(e).__name__}", w, f"set_cookie({name!r}, {value!r}) raised {e!r:.120}")
             continue
+        if res.exc is not None and wide and isinstance(res.exc, UnicodeEncodeError):
+            continue  # text outside Latin-1 cannot be put into a header at all: refusing is not an injection
         if res.exc is not None:
             r.violation(f"cookie:emit-exception:{type(res.exc).__name__}", w, f"emitting cookie ({name!r}, {value!r}) on {iface} raised {res.exc!r:.120}")
             continue
@@ -252,7 +312,7 @@ def check_cookie(r, name, value, full):
             r.violation("cookie:extra-header", w, f"{iface} cookie ({name!r}, {value!r}) produced headers {res.headers!r:.300}")
             continue
         line = lines[0]
-        if not line.isascii():
+        if not line.isascii() and not wide:
             r.violation("cookie:non-ascii-line", w, f"{iface} cookie ({name!r}, {value!r}) -> {line!r}")
             continue
         parts = line.split(";")
@@ -311,8 +371,11 @@ def replay(w):
         em = dict((k.lower(), v) for k, v in res.headers)
         probs += [f"{k} not emitted" for k, v in d.items() if k != "content-length" and em.get(k) != v]
         return bool(probs), {"problems": probs, "headers": res.headers}
-    if w["kind"] == "cookie":
-        check_cookie(r, w["name"], w["value"], w["full"])
+    if w["kind"] == "hdrstring":
+        header_strings(r, w["iface"], "quick")
+        r.viol = {k: v for k, v in r.viol.items() if v[1]["string"] == w["string"] and v[1]["path"] == w["path"]}
+    elif w["kind"] == "cookie":
+        check_cookie(r, w["name"], w["value"], w["full"], w.get("late", False))
     else:
         check_redirect(r, w["url"])
     return bool(r.viol), {"violations": sorted(r.viol), "texts": [v[2][:300] for v in r.viol.values()]}
